@@ -462,10 +462,26 @@ def equality_gates(fn, ty_rx=r"setsum::Setsum"):
                 if differ not in succ:
                     continue
                 out.append({"bb": b.idx, "a": var_names(fn, t["args"][0]), "b": var_names(fn, t["args"][1]),
+                            "sa": sig(fn, t["args"][0]), "sb": sig(fn, t["args"][1]), "ga": t.get("ga", ""),
                             "differ_label": differ, "equal_label": equal, "line": t["sp"][1], "pt": s["pt"],
                             "fails_closed": only_errors_from(fn, succ[differ]), "t": t})
                 break
     return out
+
+
+def find_gate_sig(gates, a, b, not_a=(), not_b=(), ga=None, not_ga=None):
+    """A gate one of whose operand signatures contains all tokens of `a` (and none of not_a) and the other all of `b`
+    (and none of not_b); optionally constrained by the generic arguments of the comparison (operand types)."""
+    a, b = set(a), set(b)
+    for g in gates:
+        if ga is not None and ga not in g["ga"]:
+            continue
+        if not_ga is not None and not_ga in g["ga"]:
+            continue
+        for x, y in ((g["sa"], g["sb"]), (g["sb"], g["sa"])):
+            if a <= x and b <= y and not (set(not_a) & x) and not (set(not_b) & y):
+                return g
+    return None
 
 
 def find_gate(gates, a, b):
@@ -495,3 +511,75 @@ def origin_chain(fn, op, suffixes, arg=0):
                 if origin_chain(fn, a, suffixes[1:], 0):
                     return True
     return False
+
+
+def _compound_targets(fn):
+    """Locals that are the `&mut` receiver of a compound assignment operator (+=, -=) or of a container store."""
+    out = {}
+    d = P.defs(fn)
+    for b, t in fn.calls():
+        ck = callee_skey(t) or ""
+        m = re.search(r"core::ops::arith::(AddAssign|SubAssign)>::(add_assign|sub_assign)$", ck)
+        if not m or not t["args"]:
+            continue
+        a0 = t["args"][0]
+        if a0.get("k") not in ("copy", "move"):
+            continue
+        for _pt, kind, st in d.of(a0["pl"]["l"]):
+            if kind == "assign" and st["rv"]["r"] == "ref" and not P._field_elems(st["rv"]["pl"]):
+                out.setdefault(st["rv"]["pl"]["l"], []).append((m.group(2), t))
+    return out
+
+
+def sig(fn, op):
+    """Name-free signature of where a value comes from: parameters (`p<i>`), non-transparent calls (`c:<Type::fn>`),
+    calls with a constant char argument (`info:<ch>`), field reads (`f:<name>`), constants (`k:<v>`), and `acc` when a
+    local in the slice is the target of += / -= (an accumulator, with `acc<-<sig of what is added>`)."""
+    toks = set()
+    work = [op]
+    seen_pts = set()
+    comp = _compound_targets(fn)
+    seen_loc = set()
+    while work:
+        o = work.pop()
+        srcs, locs = P.value_slice(fn, o)
+        for l in locs:
+            if l in comp and l not in seen_loc:
+                seen_loc.add(l)
+                toks.add("acc")
+                for opname, t in comp[l]:
+                    for s2 in P.origins(fn, t["args"][1]):
+                        if s2["k"] == "call" and not P.TRANSPARENT.search(s2["callee"]):
+                            toks.add("acc<-" + ("+" if opname == "add_assign" else "-") + P.short(s2["callee"]).rsplit("::", 1)[-1])
+        for s in srcs:
+            if s["k"] == "param":
+                toks.add("p%d" % s["i"])
+            elif s["k"] == "field":
+                toks.add("f:" + s["f"])
+            elif s["k"] == "const" and "v" in s:
+                toks.add("k:%s" % s["v"])
+            elif s["k"] == "call":
+                if ARITH.search(s["callee"]) or s["callee"].endswith("::poison"):
+                    if s["pt"] not in seen_pts:
+                        seen_pts.add(s["pt"])
+                        work.extend(s["t"]["args"])
+                    continue
+                if P.TRANSPARENT.search(s["callee"]) or P.WRAPPERS.search(s["callee"]):
+                    continue
+                toks.add("c:" + s["callee"].rsplit("::", 1)[-1])
+                toks.add("C:" + P.short(s["callee"]))
+                for a in s["t"]["args"]:
+                    if a.get("k") == "const" and a["c"].get("ty") == "char" and "v" in a["c"]:
+                        toks.add("info:" + chr(a["c"]["v"]))
+    return toks
+
+
+def base_locals(fn, op):
+    """Non-parameter locals in the backward slice of an operand (used for `the same variable` tests without names)."""
+    _srcs, locs = P.value_slice(fn, op)
+    return {l for l in locs if l > fn.argc}
+
+
+def user_locals(fn, op):
+    """base_locals restricted to locals that carry a user variable (debug info), i.e. not compiler temporaries."""
+    return {l for l in base_locals(fn, op) if fn.local_name(l)}
